@@ -510,11 +510,12 @@ Loc(o) == CASE o = "sc.cb" -> "sc.cb" [] o = "sc.rc" -> "sc.rc" [] o = "gate" ->
 FinalOf(i) ==
   CASE Op(i) \in {"then_inline", "then_exec"} -> (i \o "_next") :> "v1"
     [] Op(i) = "share" -> (i \o "_share") :> Payload
+    [] Op(i) = "whenall" -> (i \o "_when") :> Payload      \* the copy WhenAll retired from the shared state (monitors only)
     [] OTHER -> <<>>
 RECURSIVE FinalAll(_)
 FinalAll(S) == IF S = {} THEN [live |-> "0", read_moved |-> "0"]
                ELSE LET i == CHOOSE x \in S : TRUE
-                    IN  IF Op(i) \in {"then_inline", "then_exec", "share"} THEN FinalOf(i) @@ FinalAll(S \ {i})
+                    IN  IF Op(i) \in {"then_inline", "then_exec", "share", "whenall"} THEN FinalOf(i) @@ FinalAll(S \ {i})
                         ELSE FinalAll(S \ {i})
 ExpectedFinal == FinalAll(Obs)
 =============================================================================
